@@ -20,6 +20,9 @@ From V Require Import Gen.Nodes Gen.TableRows Spec.Valid.
 From V Require Import Gen.CmGen Model.Cm Spec.CmSpec.
 From V Require Import Spec.SourcePos Spec.SourcePosKnown.
 From V Require Import Model.StrLeafApi.
+From V Require Import Spec.Doc.
+From V Require Import Gen.Consts Model.Caps.
+From V Require Import Gen.Special Model.Special Spec.Triggers.
 Extraction Language OCaml.
 Set Extraction KeepSingleton.
 
@@ -230,4 +233,23 @@ Extraction "model.ml"
   StrLeafApi.sl_unescape_pipes
   StrLeafApi.sl_parse_list_marker
   StrLeafApi.sl_scan_thematic_break_inner
+  Doc.canonical
+  Doc.write
+  Doc.ref_html
+  Doc.tree_of
+  Doc.norm
+  Doc.std_opts
+  Doc.mkDoc
+  Doc.wf_doc
+  Caps.document_lookups
+  Caps.feed_rows
+  Caps.open_header
+  Caps.row_cells
+  Triggers.c13_feature_names
+  Triggers.c13_triggers
+  Triggers.c13_free_of
+  Triggers.c13_free_of_heads
+  Special.c13_find_special
+  Special.c13_select_arm
+  Special.c13_tables
 .
